@@ -75,6 +75,19 @@ def tree_cases(nmax, quick):
                                'gamma': 1.0 if si % 2 else 0.7, 'ew': wmode, 'nw': 'rw' if wmode else None, 'T': 3.0, 'tcount': 13}
 
 
+def stiff_tree_cases(quick):
+    """weighted trees whose rates span more than three orders of magnitude, read out on a coarse grid over a long horizon: the
+    integrator has to take many internal steps per report interval"""
+    shapes = [[(0, 1), (1, 2), (1, 3), (3, 4)], [(0, 1), (0, 2), (0, 3), (0, 4)], [(0, 1), (1, 2), (2, 3)], [(0, 1), (1, 2), (2, 3), (3, 4)]]
+    for k, edges in enumerate(shapes if not quick else shapes[:3]):
+        n = max(max(e) for e in edges) + 1
+        nw = [0.02, 1.0, 0.5, 60.0, 2.0][:n]
+        ew = [1.0, 2.0, 0.5, 3.0][:len(edges)]
+        for tau, gamma, T in ((0.03, 1.0, 300.0), (20.0, 0.05, 200.0)):
+            gc = {'nodes': list(range(n)), 'edges': [list(e) for e in edges], 'ew': {'tw': ew[k % 2:] + ew[:k % 2]}, 'nw': {'rw': nw[k:] + nw[:k]}}
+            yield {'gc': gc, 'I0': [1 if n > 1 else 0], 'R0': [], 'tau': tau, 'gamma': gamma, 'ew': 'tw', 'nw': 'rw', 'T': T, 'tcount': 7, 'stiff': True}
+
+
 def prop_tree(case):
     import EoN
     gc = case['gc']
@@ -109,7 +122,7 @@ def prop_tree(case):
     nodes_, adj = oracles.adjacency(gc)
     nonleaf = any(len(adj[u]) >= 2 for u in I0)
     return Result(fails, nontrivial=N >= 4 and (nonleaf or bool(case['ew'])),
-                  classes=['n=%d' % N] + (['weighted:' + case['ew']] if case['ew'] else ['unweighted']) + (['R0'] if R0 else []))
+                  classes=['n=%d' % N] + (['weighted:' + case['ew']] if case['ew'] else ['unweighted']) + (['R0'] if R0 else []) + (['stiff'] if case.get('stiff') else []))
 
 
 def triangle_control():
@@ -384,6 +397,7 @@ def run(ctx):
         except Exception as e:
             ctx.extra['triangle_control_deviation'] = 'exception %r' % (e,)
         run_cases(ctx, 'trees', tree_cases(nmax, quick), prop_tree, stop_after=4)
+        run_cases(ctx, 'trees', stiff_tree_cases(quick), prop_tree, stop_after=2)
     if not only or 'final-size' in only:
         run_hypothesis(ctx, 'final-size', final_case(), prop_final, 120 if quick else 3000, rounds=6)
     if not only or 'limits' in only:
